@@ -2,6 +2,9 @@ package main
 
 import (
 	"bytes"
+	"crypto"
+	"crypto/ecdsa"
+	"crypto/rsa"
 	"fmt"
 	"github.com/fxamacker/cbor/v2"
 	"math/big"
@@ -159,6 +162,111 @@ func runC12(c *Collector, r *Rng, thorough bool) {
 			want := refArray(refTstr("Signature1"), refBstr(w.Kids[0].Kids[0].Str), refBstr(nil), refBstr(hv))
 			if !bytes.Equal(want, vf.calls[0].content) {
 				c.Fail("C12/signed-bytes-differ", "a verifier that used the library before reading its input was handed other bytes than the structure of the envelope", map[string]any{"out": hx(out)})
+			}
+		}
+	}
+	// the preimage content type and the location are the caller's: whatever spelling the caller gives (upper case,
+	// parameters, quoting, spacing, no slash at all, a CoAP content-format number) is what the protected bucket carries
+	// and what VerifyHashEnvelope returns - octet for octet
+	for ci, ct := range []any{"application/json", "Application/JSON", "text/plain;charset=utf-8", "text/plain; charset=UTF-8", "text/plain; Charset=\"utf-8\"", "TEXT/PLAIN ; charset=us-ascii",
+		"application/vnd.example+cbor; version=1; q=0.5", "a/b", " a/b", "a/b ", "application/spdx+json", "x", "", "multipart/mixed; boundary=\"--x\"", "image/SVG+XML", uint64(50), uint(0), uint64(65535)} {
+		for li, loc := range []string{"", "https://example.org/a?b=c#d", "HTTPS://EXAMPLE.ORG/%7Euser", " spaced out ", "\u00fcber/\u4e16\u754c"} {
+			hv := r.Bytes(32)
+			sg := &spySigner{alg: -7, kind: SOk, sig: []byte{1, 2}}
+			hp := cose.HashEnvelopePayload{HashAlgorithm: cose.AlgorithmSHA256, HashValue: hv, PreimageContentType: ct, Location: loc}
+			out, err := cose.SignHashEnvelope(nil, sg, cose.Headers{Protected: cose.ProtectedHeader{cose.HeaderLabelAlgorithm: cose.AlgorithmES256}}, hp)
+			c.Eval("content-type-and-location-verbatim", fmt.Sprint(ci, li), true)
+			if err != nil {
+				continue
+			}
+			rep := map[string]any{"content_type": fmt.Sprintf("%T %v", ct, ct), "location": loc, "out": hx(out)}
+			w, perr := refParseFull(out)
+			if perr != nil || len(w.Kids) != 1 || len(w.Kids[0].Kids) != 4 {
+				continue
+			}
+			pm, perr := refParseFull(w.Kids[0].Kids[0].Str)
+			if perr != nil {
+				continue
+			}
+			var got259, got260 *W
+			for q := 0; q+1 < len(pm.Kids); q += 2 {
+				if pm.Kids[q].Maj == 0 && pm.Kids[q].Val == 259 {
+					got259 = pm.Kids[q+1]
+				}
+				if pm.Kids[q].Maj == 0 && pm.Kids[q].Val == 260 {
+					got260 = pm.Kids[q+1]
+				}
+			}
+			switch t := ct.(type) {
+			case string:
+				if got259 == nil || got259.Maj != 3 || string(got259.Str) != t {
+					c.Fail("C12/not-the-given-values", fmt.Sprintf("the envelope's preimage content type is %x, the caller gave the text %q", serOrNil(got259), t), rep)
+				}
+			default:
+				if got259 == nil || got259.Maj != 0 || fmt.Sprint(got259.Val) != fmt.Sprint(ct) {
+					c.Fail("C12/not-the-given-values", fmt.Sprintf("the envelope's preimage content type is %x, the caller gave the number %v", serOrNil(got259), ct), rep)
+				}
+			}
+			if loc != "" && (got260 == nil || got260.Maj != 3 || string(got260.Str) != loc) {
+				c.Fail("C12/not-the-given-values", fmt.Sprintf("the envelope's location is %x, the caller gave %q", serOrNil(got260), loc), rep)
+			}
+			if m, verr := cose.VerifyHashEnvelope(&spyVerifier{alg: -7}, out); verr == nil && m != nil {
+				back := m.Headers.Protected[cose.HeaderLabelPayloadPreimageContentType]
+				if s, ok := ct.(string); ok && back != s {
+					c.Fail("C12/not-the-given-values", fmt.Sprintf("VerifyHashEnvelope returns the content type %v, the caller gave %q", back, s), rep)
+				}
+				if l, _ := m.Headers.Protected[cose.HeaderLabelPayloadLocation].(string); loc != "" && l != loc {
+					c.Fail("C12/not-the-given-values", fmt.Sprintf("VerifyHashEnvelope returns the location %q, the caller gave %q", l, loc), rep)
+				}
+			}
+		}
+	}
+	// envelopes with a real signature of the right key over the right structure, but not a signature of the algorithm the
+	// protected bucket names: RSASSA-PSS with another salt length than the digest length (RFC 8230 section 2), ECDSA
+	// over the digest of another hash: no message is returned
+	for _, k := range realKeySet(r) {
+		pcontent := wMap(-1, wInt(1, -1), wInt(int64(k.alg), -1), wInt(258, -1), wInt(-16, -1)).Ser()
+		digest := r.Bytes(32)
+		tbs := refArray(refTstr("Signature1"), refBstr(pcontent), refBstr(nil), refBstr(digest))
+		env := func(sig []byte) []byte {
+			return wTag(18, -1, wArr(-1, wBstr(pcontent, -1), wMap(-1), wBstr(digest, -1), wBstr(sig, -1))).Ser()
+		}
+		good := refSign(r, k, tbs)
+		if _, err := cose.VerifyHashEnvelope(k.verifier(), env(good)); err != nil {
+			c.Fail("C12/verify-refused", "an envelope signed by the standard library over the RFC structure is refused: "+err.Error(), map[string]any{"alg": k.alg.String(), "data": hx(env(good))})
+			continue
+		}
+		h := algHash(k.alg)
+		type odd struct {
+			what string
+			sig  []byte
+		}
+		var odds []odd
+		switch pk := k.priv.(type) {
+		case *rsa.PrivateKey:
+			for _, salt := range []int{0, 1, 20, h.Size() - 1, h.Size() + 1, rsa.PSSSaltLengthAuto} {
+				if sig, err := rsa.SignPSS(r, pk, h, digestOf(h, tbs), &rsa.PSSOptions{SaltLength: salt, Hash: h}); err == nil {
+					odds = append(odds, odd{fmt.Sprintf("RSASSA-PSS with salt length %d (digest length %d)", salt, h.Size()), sig})
+				}
+			}
+		case *ecdsa.PrivateKey:
+			for _, oh := range []crypto.Hash{crypto.SHA256, crypto.SHA384, crypto.SHA512} {
+				if oh == h {
+					continue
+				}
+				if rr, ss, err := ecdsa.Sign(r, pk, digestOf(oh, tbs)); err == nil {
+					n := (pk.Curve.Params().N.BitLen() + 7) / 8
+					sig := make([]byte, 2*n)
+					rr.FillBytes(sig[:n])
+					ss.FillBytes(sig[n:])
+					odds = append(odds, odd{fmt.Sprintf("ECDSA over the %v digest", oh), sig})
+				}
+			}
+		}
+		for _, o := range odds {
+			c.Eval("signature-of-another-algorithm/"+k.alg.String(), o.what, true)
+			if m, err := cose.VerifyHashEnvelope(k.verifier(), env(o.sig)); err == nil || m != nil {
+				c.Fail("C12/accepted-unverified", fmt.Sprintf("VerifyHashEnvelope returned a message for an envelope under %v whose signature is %s", k.alg, o.what), map[string]any{"alg": k.alg.String(), "data": hx(trimTo(env(o.sig), 400))})
 			}
 		}
 	}
@@ -586,6 +694,57 @@ func runC13(c *Collector, r *Rng, thorough bool) {
 			}
 		}
 	}
+	// ---- a bucket holding exactly one governed parameter whose value is one octet (every octet value for alg, the
+	// heads of every major type for the others: integers, empty and truncated strings, arrays, maps, tags, simple
+	// values, break): the shortest headers there are, in the protected and the unprotected position and inside
+	// messages - accepted only when well-formed and within section 3.1 ----
+	{
+		few := []byte{0x00, 0x01, 0x17, 0x18, 0x20, 0x26, 0x37, 0x38, 0x40, 0x41, 0x57, 0x58, 0x60, 0x61, 0x77, 0x80, 0x81, 0x9f, 0xa0, 0xa1, 0xbf, 0xc0, 0xc2, 0xd8, 0xe0, 0xf4, 0xf5, 0xf6, 0xf7, 0xf8, 0xf9, 0xff}
+		for _, l := range []byte{1, 2, 3, 4, 5, 6, 7, 9, 11, 12, 16} {
+			var octets []byte
+			if l == 1 {
+				for x := 0; x < 256; x++ {
+					octets = append(octets, byte(x))
+				}
+			} else {
+				octets = few
+			}
+			for _, x := range octets {
+				content := []byte{0xa1, l, x}
+				pb := append([]byte{0x43}, content...)
+				cases := []struct {
+					kind string
+					data []byte
+				}{
+					{"DProt", pb},
+					{"DUnprot", content},
+				}
+				if l == 1 || x >= 0x40 {
+					cases = append(cases,
+						struct {
+							kind string
+							data []byte
+						}{"DSign1", append(append([]byte{0xd2, 0x84}, pb...), 0xa0, 0x41, 0x70, 0x41, 0x01)},
+						struct {
+							kind string
+							data []byte
+						}{"DSignature", append(append([]byte{0x83}, pb...), 0xa0, 0x41, 0x01)})
+				}
+				for _, cs := range cases {
+					d := decodeCase(c, fmt.Sprintf("decode/one-octet-value/label-%d", l), cs.kind, cs.data)
+					if d.paniced {
+						c.Fail("C13/panic", "decoder panicked", map[string]any{"data": hx(cs.data)})
+						continue
+					}
+					if d.err == nil {
+						if rerr := refMessageOK(cs.kind, cs.data); rerr != nil {
+							c.Fail("C13/decoded-violates-3.1", "decoder accepted a header violating RFC 9052 3.1: "+rerr.Error(), map[string]any{"data": hx(cs.data), "kind": cs.kind})
+						}
+					}
+				}
+			}
+		}
+	}
 	// ---- text labels and non-label keys on the encode side ----
 	for _, k := range []any{"", "a", "alg", 1.5, true, nil, []byte("x")} {
 		func() {
@@ -960,4 +1119,11 @@ func runC13(c *Collector, r *Rng, thorough bool) {
 			}
 		}
 	}
+}
+
+func serOrNil(w *W) []byte {
+	if w == nil {
+		return nil
+	}
+	return w.Ser()
 }
